@@ -19,6 +19,7 @@ from ...process.levyprocess import (
     SimulationWithJumpTimes,
     SimulationMaximumStep,
     simulate_diffusion_with_brownian_increments,
+    refine_up_to_maturity,
 )
 from ...product.payoff import PayoffDates
 from ...product.product import Product
@@ -292,13 +293,6 @@ class MCSimulationMaximumStep(MCSimulationWithJumpTimes, SimulationMaximumStep):
 
     def simulate_jumps(self):
         jump_times, jump_values = super().simulate_jumps()
-
-        if jump_times.size == 0:
-            aug_jump_times = jump_times
-            aug_jump_values = jump_values
-        else:
-            aug_jump_times, aug_jump_values = self.build_finer_grid(
-                jump_times, jump_values
-            )
-
-        return aug_jump_times, aug_jump_values
+        return refine_up_to_maturity(
+            self.build_finer_grid, self._maturity, jump_times, jump_values
+        )
